@@ -7,8 +7,32 @@ SEED = int(os.environ.get("VERIF_SEED", "0") or 0)
 THOROUGH = TIER == "thorough"
 
 
+_CURRENT = []
+
+
+def _excepthook(tp, exc, tb):
+    """An exception that escapes a leg: if it was RAISED INSIDE the package under test (the innermost traceback frame belongs to
+    stackscope) the library broke a 'never raises' / 'returns a value' expectation of the scenario being run - a violation with
+    the traceback as witness; anything else is a defect of the harness itself and stays a crash (exit 3 in ./check)."""
+    import traceback
+    last = tb
+    while last is not None and last.tb_next is not None:
+        last = last.tb_next
+    fn = last.tb_frame.f_code.co_filename if last is not None else ""
+    if _CURRENT and (os.sep + "stackscope" + os.sep) in fn and "legs" + os.sep not in fn:
+        leg = _CURRENT[-1]
+        leg.violation("library-exception", "an exception raised inside the package escaped to the harness (scenario after "
+                      f"{leg.evals} evaluations): " + "".join(traceback.format_exception(tp, exc, tb))[-450:])
+        leg.finish()
+    sys.__excepthook__(tp, exc, tb)
+
+
+sys.excepthook = _excepthook
+
+
 class Leg:
     def __init__(s, name, rule, replay_hint=None):
+        _CURRENT.append(s)
         s.name, s.rule = name, rule
         s.evals = 0
         s.distinct = set()
